@@ -13,6 +13,7 @@ MIDDOT = "·"
 GREEK = ("alpha beta gamma delta epsilon zeta eta theta iota kappa lambda mu nu xi omicron pi rho "
          "sigma tau upsilon phi chi psi omega").split()
 PREFIXES = ["."] + [g + "-" for g in GREEK]
+PREFIX_RANK = dict([(g + "-", i) for i, g in enumerate(GREEK)] + [(".", len(GREEK))])
 SUFFIXES = ["(s)", "(l)", "(g)", "(aq)"]
 CLOSER = {"(": ")", "[": "]", "{": "}"}
 OPENER = {v: k for k, v in CLOSER.items()}
@@ -191,7 +192,9 @@ class Gen(object):
         r = self.rng
         toks = []
         if r.random() < 0.15:
-            toks.append({"k": "pre", "t": r.choice(PREFIXES)})
+            # one prefix, or two in the order of the notation's table (greek letters alphabetically, radical dot last)
+            picked = sorted(r.sample(PREFIXES, 2 if r.random() < 0.35 else 1), key=PREFIX_RANK.get)
+            toks.extend({"k": "pre", "t": p} for p in picked)
         decimal = r.random() < 0.3
         # all numbers stay below 1000 (decimal mode) / 10^6 (integer mode): see DESIGN 2.3
         budget = Fraction(900) if decimal else Fraction(10 ** 6)
@@ -287,10 +290,15 @@ def lex(text, symbols):
     toks = []
     if s == "e-":
         return [{"k": "electron"}, {"k": "finish"}]
-    for p in sorted(PREFIXES, key=len, reverse=True):
-        if s.startswith(p) and (p != "." or not s.startswith("..")):
-            toks.append({"k": "pre", "t": p})
-            s = s[len(p):]
+    rank = -1
+    while True:
+        for p in sorted(PREFIXES, key=len, reverse=True):
+            if s.startswith(p) and (p != "." or not s.startswith("..")) and PREFIX_RANK[p] > rank:
+                toks.append({"k": "pre", "t": p})
+                s = s[len(p):]
+                rank = PREFIX_RANK[p]
+                break
+        else:
             break
     suf = None
     for x in SUFFIXES:
@@ -406,10 +414,15 @@ def unpresent(s, fmt):
     F = FORMATS[fmt]
     toks = []
     i = 0
-    for shown in sorted(F["pre"], key=len, reverse=True):
-        if s.startswith(shown):
-            toks.append(["Pre", F["pre"][shown]])
-            i = len(shown)
+    rank = -1
+    while True:
+        for shown in sorted(F["pre"], key=len, reverse=True):
+            if s.startswith(shown, i) and PREFIX_RANK[F["pre"][shown]] > rank:
+                toks.append(["Pre", F["pre"][shown]])
+                i += len(shown)
+                rank = PREFIX_RANK[F["pre"][shown]]
+                break
+        else:
             break
     suf = None
     for x in SUFFIXES:
